@@ -33,6 +33,7 @@ static void dump_item(const cbor_item_t* it, struct vh_buf* o, int flags, struct
         vb_u8(o, 1);
         size_t n = cbor_bytestring_chunk_count(it);
         vb_u64(o, n);
+        if (flags & WD_IDENTITY) vb_u64(o, cbor_bytestring_length(it));
         if (n && !cbor_bytestring_chunks_handle(it)) { vb_u8(o, 'X'); break; }
         for (size_t i = 0; i < n; i++) dump_item(cbor_bytestring_chunks_handle(it)[i], o, flags, ids);
       }
@@ -48,6 +49,8 @@ static void dump_item(const cbor_item_t* it, struct vh_buf* o, int flags, struct
         vb_u8(o, 1);
         size_t n = cbor_string_chunk_count(it);
         vb_u64(o, n);
+        /* before/after snapshots of one object also record what the flavour-agnostic getters say about it */
+        if (flags & WD_IDENTITY) { vb_u64(o, cbor_string_length(it)); vb_u64(o, cbor_string_codepoint_count(it)); }
         if (n && !cbor_string_chunks_handle(it)) { vb_u8(o, 'X'); break; }
         for (size_t i = 0; i < n; i++) dump_item(cbor_string_chunks_handle(it)[i], o, flags, ids);
       }
